@@ -337,6 +337,11 @@ def gen(seed, run, tier='quick'):
         a2 = rng.choice(['2', '5/4', '0.25', '9'])
         probes.append({'id': len(probes), 'form': form, 's1': s1, 's2': s2,
                        'n': n, 'a1': a1, 'a2': a2})
+        if form == 'u**' and rng.random() < 0.35:
+            # the same power with the exponent given as float: rejected
+            # with TypeError - and must not influence u ** n
+            probes.append({'id': len(probes), 'form': 'u**f', 's1': s1,
+                           's2': s2, 'n': n, 'a1': a1, 'a2': a2})
         # siblings: the same operands under the other operator / swapped
         # (what a memo keyed too coarsely would confuse)
         if form[:2] in ('uu', 'qq', 'qu', 'uq'):
@@ -515,6 +520,8 @@ def run_world(arg):
                 r = u1 / u2
             elif form == 'u**':
                 r = u1 ** p['n']
+            elif form == 'u**f':
+                r = u1 ** float(p['n'])
             elif form == 'qq*':
                 r = (a1 * u1) * (a2 * u2)
             elif form == 'qq/':
@@ -692,6 +699,8 @@ def judge(h):
 def _precondition(model, p):
     """Result type (unit) declared at this point, per the model."""
     form = p['form']
+    if form == 'u**f':
+        return True         # always the same answer: TypeError
     try:
         if form in ('u**', 'q**'):
             if p['n'] == 0:
